@@ -28,10 +28,17 @@ type c15Ctx struct {
 	dead   bool // the case cannot continue (watchdog fired / node wedged)
 }
 
+// c15BridgeWrap, when set, wraps the chain bridge handed to the protocol manager (C16 records InsertChain calls).
+var c15BridgeWrap func(protocol.ChainBridge) protocol.ChainBridge
+
 func c15NewCtx(c *fw.C, caseID string) *c15Ctx {
 	e := c15GetEnv(c)
 	x := &c15Ctx{c: c, e: e, caseID: caseID}
-	x.pm = protocol.NewProtocolManager(1, e.chainID, e.T.Bridge)
+	var br protocol.ChainBridge = e.T.Bridge
+	if c15BridgeWrap != nil {
+		br = c15BridgeWrap(br)
+	}
+	x.pm = protocol.NewProtocolManager(1, e.chainID, br)
 	x.pm.Start()
 	x.openHonest()
 	if !x.dead {
